@@ -133,6 +133,27 @@ def t5_reader_fields(ck, F):
         ck.violation('T5', 'T5 : rollback : write set', where_of(rb), 'rollback writes %s' % sorted(ws, key=repr))
     _, _ = rr.who_may_write_rule(ck, F, 'T5', rr.F_BUFFER, 'buffer', {'buffer_bytes', 'commit', 'from_source'})
     _, _ = rr.who_may_write_rule(ck, F, 'T5', rr.F_SOURCE, 'source', {'buffer_bytes', 'from_source'})
+    # the position: checkpoints are absolute offsets into the retained buffer, so nothing but skip_bits (forward), rollback (to a checkpoint) and commit
+    # (with the drain) may move it, and nothing but commit may take bytes off the buffer - an open transaction's checkpoint would silently go stale
+    _, _ = rr.who_may_write_rule(ck, F, 'T5', rr.F_BITS, 'bits_read', {'skip_bits', 'rollback', 'commit', 'from_source'})
+    SHRINK = ('::pop_front', '::pop_back', '::drain', '::clear', '::truncate', '::remove', '::split_off', '::retain', '::retain_mut', '::resize', '::swap_remove_back', '::swap_remove_front')
+    shr = []
+    for n, b_ in sorted(F.bodies.items()):
+        if not n.startswith('h263_rs::parser::reader::'): continue
+        for bi, blk in enumerate(b_['blocks']):
+            t = blk['term']
+            if t['t'] != 'call': continue
+            cn = F.callee_name(t).split('#')[0]
+            if 'VecDeque' in cn and cn.endswith(SHRINK): shr.append((n, bi, cn.rsplit('::', 1)[-1]))
+    from ..facts import is_test_fn as _itf
+    shr = [x for x in shr if not _itf(x[0])]
+    bad_shr = [x for x in shr if short_fn(x[0]).split('::')[-1] != 'commit']
+    if bad_shr:
+        n, bi, m = bad_shr[0]
+        ck.violation('T5', 'T5 : buffer shrunk by %s' % short_fn(n), where_of(F.bodies[n], bi), 'the retained buffer loses bytes in %s (%s); only commit may drop bytes, and only whole consumed bytes together with the position' % (short_fn(n), m))
+    else:
+        ck.ok('T5', 'bytes leave the retained buffer only in commit (%s)' % sorted({m for _, _, m in shr}), where_of(F.body(rr.RD + 'commit')))
+    ck.floor('buffer shrinking call sites', len(shr), 1)
     cs = rr.callers_of(F, rr.RD + 'commit')
     for caller, bb in cs:
         if caller == CLO:
@@ -271,3 +292,9 @@ def run(ck, F, tier):
     t5_reader_fields(ck, F)
     t6_retry_granularity(ck, F)
     t7_parsers_are_transactions(ck, F)
+    # "the bit reader is positioned where it was": what rollback / commit / skip do to the position (C14 A: who moves it and by how much; C14 E: the forms of
+    # rollback, commit, ensure_bits and the other helpers)
+    from . import c14
+    from ..report import Scoped
+    s14 = Scoped(ck, 'C14.')
+    c14.a_who_moves(s14, F); c14.e_helper_forms(s14, F)
